@@ -1045,6 +1045,14 @@ class Ctx:
         r = a == b
         return r
 
+    def approx(self, a, b, tol=1e-9):
+        """|a - b| <= tol: for comparisons where one side went through concrete
+        IEEE arithmetic (e.g. 1/3 as a double) and the other is exact."""
+        d = a - b
+        if isinstance(d, Sym):
+            return SymBool(z3.And(d.z <= to_z3_num(tol), d.z >= to_z3_num(-tol)))
+        return abs(d) <= tol
+
     def feasible(self, c):
         r = self._check(_zbool(c))
         if r == z3.unknown:
